@@ -16,3 +16,18 @@ pub fn collect_len(inp: impl Iterator<Item = ()>) -> impl Iterator<Item = usize>
    }
    std::iter::once(n)
 }
+
+/// The smallest and the largest value of the column as one tuple (nothing on empty input).
+pub fn min_max<'a, N: 'a + Ord + Clone>(inp: impl Iterator<Item = (&'a N,)>) -> impl Iterator<Item = (N, N)> {
+   let mut lo: Option<&'a N> = None;
+   let mut hi: Option<&'a N> = None;
+   for (x,) in inp {
+      if lo.map_or(true, |l| x < l) {
+         lo = Some(x);
+      }
+      if hi.map_or(true, |h| x > h) {
+         hi = Some(x);
+      }
+   }
+   lo.zip(hi).map(|(l, h)| (l.clone(), h.clone())).into_iter()
+}
